@@ -13,7 +13,7 @@
   (hop count, communities, MAC mobility) is written here from the wire format, independently of the
   model's getters.
 -/
-import Rbgp.Rib.Obs
+import Rbgp.Rib.SpecRef
 namespace Rbgp.Rib.SpecC02
 open Rbgp.Rib
 
@@ -180,8 +180,9 @@ def eligibleOf (x : Ctx) (m : NhMap) (fam : Fam) (net : Net) (es : List DEntry) 
     if !e.filtered && !inv then some (e.src, e.attr) else none
 
 /-- A reported ranking `ps` (best first) of prefix `net`, whose eligible paths are `elig`:
-    `complete` = it must list every eligible path (a full dump), otherwise any sub-list. -/
-def checkRanking (x : Ctx) (net : Net) (elig : List (Nat × Nat)) (ps : List PathRef) (ecmp : Nat)
+    `complete` = it must list every eligible path (a full dump), otherwise any sub-list.
+    `ecmp` = the local path ids reported as the ECMP set. -/
+def checkRanking (x : Ctx) (net : Net) (elig : List (Nat × Nat)) (ps : List PathRef) (ecmp : List Nat)
     (complete : Bool) : Option String :=
   let ids := ps.map fun p => (p.src, p.attr)
   match ids.mapM (fun i => x.key net.t2 i.1 i.2), elig.mapM (fun i => x.key net.t2 i.1 i.2) with
@@ -191,7 +192,7 @@ def checkRanking (x : Ctx) (net : Net) (elig : List (Nat × Nat)) (ps : List Pat
       else if ks.isEmpty && !elig.isEmpty then some "no-best-but-eligible-path-exists"
       else if (match ks with | k :: _ => eks.any (fun e => beats e k) | [] => false) then some "best-is-beaten"
       else if !ranked ks then some "ranking-inverted"
-      else if ecmp != leadingRun ks then some "ecmp-not-leading-run"
+      else if ecmp != (ps.map (·.lpid)).take (leadingRun ks) then some "ecmp-not-leading-run"
       else none
   | _, _ => some "unknown-reference"
 
@@ -199,14 +200,17 @@ def lookupNet {α} (n : Net) : List (Net × α) → Option α
   | [] => none
   | (n', v) :: l => if n' = n then some v else lookupNet n l
 
+def optList {α} : Option (List α) → List α
+  | some l => l
+  | none => []
+
 def checkChange (x : Ctx) (m : NhMap) (fams : List FamObs) (ch : ChangeObs) : Option String :=
   match fams.find? (fun f => f.fam = ch.fam) with
   | none => some "unknown-family"
   | some fo =>
-      let es := match lookupNet ch.net fo.dests with
-        | some es => es
-        | none => []
-      checkRanking x ch.net (eligibleOf x m ch.fam ch.net es) ch.paths ch.ecmp false
+      -- "installed / exported": the best path handed on is the head of the ranking
+      if ch.newBest != ch.paths.head?.map (·.lpid) then some "reported-best-is-not-the-head"
+      else checkRanking x ch.net (eligibleOf x m ch.fam ch.net (optList (lookupNet ch.net fo.dests))) ch.paths ch.ecmp false
 
 def firstSome {α} (f : α → Option String) : List α → Option String
   | [] => none
@@ -214,19 +218,64 @@ def firstSome {α} (f : α → Option String) : List α → Option String
     | some s => some s
     | none => firstSome f l
 
+/-- every destination: the full dump lists exactly its eligible paths, ranked -/
+def clauseDest (x : Ctx) (m : NhMap) (fo : FamObs) (d : Net × List DEntry) : Option String :=
+  let elig := eligibleOf x m fo.fam d.1 d.2
+  match fo.loc.find? (fun l => l.net = d.1) with
+  | some l => checkRanking x d.1 elig l.paths l.ecmp true
+  | none => if elig.isEmpty then none else some "eligible-path-missing"
+
+/-- the add-path lists (N = 2, 3) are prefixes of the same ranking -/
+def clauseLoc (fo : FamObs) (l : LocObs) : Option String :=
+  if (lookupNet l.net fo.dests).isNone then some "ineligible-path-selected"
+  else if lookupNet l.net fo.lim2 != some ((l.paths.map (·.lpid)).take 2) then some "addpath-list-not-a-prefix"
+  else if lookupNet l.net fo.lim3 != some ((l.paths.map (·.lpid)).take 3) then some "addpath-list-not-a-prefix"
+  else none
+
+/-- "shown by the API", ListPath of the global table without filtered paths: the usable paths appear
+    in the order of the ranking -/
+def clauseShown (x : Ctx) (m : NhMap) (fo : FamObs) (d : Net × List DEntry) : Option String :=
+  let shown : List (Nat × Nat) := eligibleOf x m fo.fam d.1 (optList (lookupNet d.1 fo.nofilt))
+  let ranking : List (Nat × Nat) := match fo.loc.find? (fun l => l.net = d.1) with
+    | some l => l.paths.map fun p => (p.src, p.attr)
+    | none => []
+  if shown == ranking then none else some "api-list-order-differs-from-ranking"
+
+def isRsClient (c : Case) (src : Nat) : Bool :=
+  match c.srcs[src]? with
+  | some s => s.role == .rs
+  | none => false
+
+def addrOfSrc (c : Case) (src : Nat) : Nat :=
+  match c.srcs[src]? with
+  | some s => s.addr
+  | none => 0
+
+/-- "shown by the API", ListPath of an RS client's local table: the one path shown for a prefix is a
+    usable path of another RS client that no other such path beats -/
+def clauseRsLocal (x : Ctx) (m : NhMap) (fo : FamObs) (peer : Nat) (shown : List (Net × DEntry))
+    (d : Net × List DEntry) : Option String :=
+  let cands := eligibleOf x m fo.fam d.1
+    (d.2.filter fun e => isRsClient x.c e.src && addrOfSrc x.c e.src != peer)
+  match lookupNet d.1 shown with
+  | none => if cands.isEmpty then none else some "rs-local-view-misses-prefix"
+  | some e =>
+      if !cands.contains (e.src, e.attr) then some "rs-local-view-shows-unusable-path"
+      else match x.key d.1.t2 e.src e.attr, cands.mapM (fun i => x.key d.1.t2 i.1 i.2) with
+        | some k, some cks => if cks.any (fun ck => beats ck k) then some "rs-local-view-best-is-beaten" else none
+        | _, _ => some "unknown-reference"
+
+/-- ListPath of a peer's Adj-RIB-In: exactly the peer's paths of the prefix, in list order -/
+def clauseAdjIn (x : Ctx) (peer : Nat) (shown : List (Net × List DEntry)) (d : Net × List DEntry) : Option String :=
+  if optList (lookupNet d.1 shown) = d.2.filter (fun e => addrOfSrc x.c e.src == peer) then none
+  else some "adj-in-view-differs"
+
 def checkFam (x : Ctx) (m : NhMap) (fo : FamObs) : Option String :=
-  -- every destination: the full dump lists exactly its eligible paths, ranked
-  (firstSome (fun (d : Net × List DEntry) =>
-      let elig := eligibleOf x m fo.fam d.1 d.2
-      match fo.loc.find? (fun l => l.net = d.1) with
-      | some l => checkRanking x d.1 elig l.paths l.ecmp true
-      | none => if elig.isEmpty then none else some "eligible-path-missing") fo.dests).orElse fun _ =>
-  (firstSome (fun (l : LocObs) =>
-      if (lookupNet l.net fo.dests).isNone then some "ineligible-path-selected" else
-      -- the add-path list is a prefix of the same ranking
-      match lookupNet l.net fo.lim2 with
-      | some ids => if ids = (l.paths.map (·.lpid)).take 2 then none else some "addpath-list-not-a-prefix"
-      | none => some "addpath-list-not-a-prefix") fo.loc)
+  (firstSome (clauseDest x m fo) fo.dests).orElse fun _ =>
+  (firstSome (clauseLoc fo) fo.loc).orElse fun _ =>
+  (firstSome (clauseShown x m fo) fo.dests).orElse fun _ =>
+  (firstSome (fun (v : Nat × List (Net × DEntry)) => firstSome (clauseRsLocal x m fo v.1 v.2) fo.dests) fo.rsLocal).orElse fun _ =>
+  (firstSome (fun (v : Nat × List (Net × List DEntry)) => firstSome (clauseAdjIn x v.1 v.2) fo.dests) fo.adjIn)
 
 def changesOf : ResObs → List ChangeObs
   | .ch c => [c]
@@ -238,19 +287,24 @@ def checkStep (c : Case) (m : NhMap) (s : StepObs) : Option String :=
   (firstSome (checkChange x m s.fams) (changesOf s.res)).orElse fun _ =>
   firstSome (checkFam x m) s.fams
 
-def checkSteps (c : Case) : Nat → NhMap → List Op → List StepObs → Verdict
-  | _, _, _, [] => .ok
-  | _, _, [], _ :: _ => .ok
-  | i, m, op :: ops, s :: ss =>
+def checkSteps (c : Case) : Nat → NhMap → SpecRef.RefSt → List Op → List StepObs → Verdict
+  | _, _, _, _, [] => .ok
+  | _, _, _, [], _ :: _ => .ok
+  | i, m, rs, op :: ops, s :: ss =>
       let m' := nhStep m op s.res
-      match checkStep c m' s with
+      let rs' := SpecRef.refStep c rs op s.res
+      -- the dump agrees with the reference path set folded from the operations
+      match (SpecRef.check c rs' s).orElse fun _ => checkStep c m' s with
       | some cl => .fail i cl
-      | none => checkSteps c (i + 1) m' ops ss
+      | none => checkSteps c (i + 1) m' rs' ops ss
 
 /-- The C02 reference checker. -/
 def check (c : Case) (o : Obs) : Verdict :=
-  match checkSteps c 0 [] c.ops o.steps with
+  match checkSteps c 0 [] {} c.ops o.steps with
   | .fail i cl => .fail i cl
-  | .ok => if o.panicked then .fail o.steps.length "panic" else .ok
+  | .ok =>
+      if o.panicked then .fail o.steps.length "panic"
+      else if o.steps.length ≠ c.ops.length then .fail o.steps.length "observation-misses-steps"
+      else .ok
 
 end Rbgp.Rib.SpecC02
